@@ -185,7 +185,8 @@ def gen_segs(rng, root, allow_wild=False, p_absent=0.3, for_delete=False):
                 k = rng.choice(keys)
                 nxt = next(vv for kk, vv in cur['v'] if kk == k)
             else:
-                k = rng.choice(['zz', 'new', 'ro'] if kind == 'roprop' else ['zz', 'new'])
+                k = rng.choice(['zz', 'new', 'ro'] if kind == 'roprop' else
+                               (['zz', 'new', 'klass_default'] if kind == 'obj' else ['zz', 'new']))
                 nxt = None
             op = _op_for(rng, style, 'obj', k)
         else:
@@ -207,6 +208,10 @@ def gen_segs(rng, root, allow_wild=False, p_absent=0.3, for_delete=False):
 def _op_for(rng, style, ckind, key):
     if style in ('str', 'Path'):
         return 'P'
+    if style in ('T', 'mixed') and isinstance(key, str) and key.isidentifier() and rng.random() < 0.08:
+        # the "other" spelling: an attribute step on a mapping, an item step on an object (each means
+        # what it means in Python, whatever the container would have preferred)
+        return '[' if ckind == 'obj' else '.'
     if style == 'T':
         if ckind == 'obj' and isinstance(key, str):
             return '.'
